@@ -56,6 +56,7 @@ EXC = {"ClientAuthenticationError": "(Refused 1)", "UnknownClient": "(Refused 2)
 SKEW = 15
 SECOND_OCT = "second_oct_key_of_client_2_0123456789abcdef"
 OWN_OCT = "the_providers_own_symmetric_key_0123456789ab"
+ROTATED = "rotated_secret_of_client_4_0123456789abcdef01"
 CLIENTS = ["client_1", "client_2", "client_3", "client_4"]
 BASE_BODY = {
     "token": {"grant_type": "authorization_code", "code": "no-such-code", "redirect_uri": "https://client_1.example.com/cb"},
@@ -187,6 +188,8 @@ class World:
             o = cfg["clients"].get(cid, {})
             if "expires" in o and "client_secret" in rec:
                 rec["client_secret_expires_at"] = o["expires"]
+            if o.get("secret") is not None:
+                rec["client_secret"] = o["secret"]       # rotated in the client database; the key jar keeps the old key
             if o.get("methods") is not None:
                 rec["client_authn_method"] = list(o["methods"])
             for epn, lst in o.get("ep_methods", {}).items():
@@ -472,7 +475,11 @@ def jwt_valid_for(world, cfg, spec, cid, now, hist, need_aud=True):
         return False, "iss"
     kind, kv = spec["key"]
     if spec["alg"] == "HS256":
-        if not (kind == "sym" and world.c.cdb.get(cid, {}).get("client_secret") == kv):
+        if kind == "sym" and ("oct", kv) in world.kj_own:
+            # MACed with one of the provider's OWN symmetric keys (key-jar variant own_oct): only the provider
+            # could have produced it; counted as an observation, stated as a disjunct of C01_sound
+            hist["own_oct"] = hist.get("own_oct", 0) + 1
+        elif not (kind == "sym" and world.c.cdb.get(cid, {}).get("client_secret") == kv):
             return False, "hs-key"
     elif spec["alg"] in ("RS256", "ES256"):
         reg = [k for k in world.kj_iss.get(cid, []) if k[0] == kind]
@@ -522,7 +529,7 @@ def oracle(ctx, world, cfg, rq, now, hist, rec, auth_ok, seen, outcome, fp_befor
         return
     # (S) authenticated => a credential of that client, through an allowed method
     if meth in (None, "public", "none") or not cid:
-        ctx.violation("smuggled-authenticated",
+        ctx.violation("smuggled-authenticated" if rq.get("authflag") else "authenticated-without-method",
                       "%s: request handed on as authenticated client %r although no authenticating method succeeded "
                       "(method=%r); the body carried authenticated=%r" % (epn, treated, meth, rq.get("authflag")), rec)
         return
@@ -712,6 +719,12 @@ def fault_matrix(world, cfg, now, tag):
                                     "assertion": J("client_1", "HS256", "bagp", exp=-100)})
     add("badsig-assertion-good-post", {"client_id": "client_2", "client_secret": s["client_2"],
                                        "assertion": J("client_1", "HS256", "bsgp", key=("sym", "wrong-key-0123456789abcdef0123456789"))})
+    # client_4's secret as the client database has it now vs. the (possibly stale) oct key of the key jar
+    cur4 = cfg["clients"].get("client_4", {}).get("secret", s["client_4"])
+    add("post-client4-current-secret", {"client_id": "client_4", "client_secret": cur4})
+    add("post-client4-jar-secret", {"client_id": "client_4", "client_secret": s["client_4"]})
+    add("hs-client4-jar-key", {"assertion": J("client_4", "HS256", "hs4j", key=("sym", s["client_4"]))})
+    add("hs-client4-current-secret", {"assertion": J("client_4", "HS256", "hs4c", key=("sym", cur4))})
     # request objects
     add("request-param-wrong-aud", {"request": J("client_2", "RS256", "rpa", aud=["https://elsewhere.example.org/"])})
     add("request-param-no-aud-hs", {"request": J("client_1", "HS256", "rph", aud=None)})
@@ -773,6 +786,8 @@ def sample_clients_cfg(rng, ep_name):
                 o["methods"] = rng.sample(METHS, rng.randint(1, 3))
             if rng.random() < 0.3:
                 o["ep_methods"]["some_other_endpoint"] = rng.sample(METHS, 2)
+        if cid == "client_4" and rng.random() < 0.2:
+            o["secret"] = ROTATED
         out[cid] = o
     return out
 
@@ -788,13 +803,18 @@ def configurations(ctx, rng, worlds):
     # canonical configurations: the full single-fault matrix where every credential-bearing method is enabled
     for epn in EPS:
         cfgs.append(("plain", {"ep": epn, "methods": list(FULL), "issuer_target": False, "clients": {}, "long": True}, "matrix"))
-        cfgs.append(("plain", {"ep": epn, "methods": "default", "issuer_target": epn == "userinfo", "clients": {}}, "matrix"))
+        cfgs.append(("plain", {"ep": epn, "methods": "default", "issuer_target": epn == "userinfo", "clients": {}},
+                     "half" if ctx.quick else "matrix"))
     cfgs.append(("plain", {"ep": "token", "methods": list(reversed(FULL)) + ["request_param", "public"], "issuer_target": True, "clients": {}}, "matrix"))
-    cfgs.append(("plain", {"ep": "token", "methods": None, "issuer_target": False, "clients": {}}, "matrix"))
-    cfgs.append(("plain", {"ep": "introspection", "methods": [], "issuer_target": False, "clients": {}}, "matrix"))
+    cfgs.append(("plain", {"ep": "token", "methods": None, "issuer_target": False, "clients": {}}, "half" if ctx.quick else "matrix"))
+    cfgs.append(("plain", {"ep": "introspection", "methods": [], "issuer_target": False, "clients": {}}, "half" if ctx.quick else "matrix"))
     cfgs.append(("plain", {"ep": "token_revocation", "methods": ["request_param", "client_secret_jwt", "private_key_jwt", "none"],
                            "issuer_target": False, "clients": {}}, "matrix"))
     cfgs.append(("two_oct", {"ep": "token", "methods": list(FULL), "issuer_target": False, "clients": {}}, "matrix"))
+    cfgs.append(("plain", {"ep": "token", "methods": list(FULL), "issuer_target": False,
+                           "clients": {"client_4": {"secret": ROTATED}}}, "matrix"))
+    cfgs.append(("plain", {"ep": "introspection", "methods": ["private_key_jwt", "client_secret_jwt", "client_secret_post"], "issuer_target": False,
+                           "clients": {"client_4": {"secret": ROTATED}}}, "half"))
     cfgs.append(("own_oct", {"ep": "pushed_authorization", "methods": list(FULL), "issuer_target": False, "clients": {}}, "matrix"))
     # expiry settings and registrations, enumerated on the token endpoint
     for exp in (0, NOW0 - 1, NOW0 - 10 ** 6, NOW0, NOW0 + 1, NOW0 + 10 ** 6):
@@ -811,7 +831,7 @@ def configurations(ctx, rng, worlds):
             epn = EPS[i % 5]
             cfgs.append((rng.choice(["plain"] * 8 + ["two_oct", "own_oct"]),
                          {"ep": epn, "methods": sample_methods(rng), "issuer_target": rng.random() < 0.3,
-                          "clients": sample_clients_cfg(rng, epname[epn])}, "matrix" if i % 4 == 0 else "sampled"))
+                          "clients": sample_clients_cfg(rng, epname[epn])}, "half" if i % 8 == 0 else "sampled"))
     else:
         import itertools
         for mask in range(1, 512):
@@ -834,19 +854,21 @@ def run_history(ctx, world, cfg, mode, rng, clock, tag, cases):
     mat = fault_matrix(world, cfg, now, tag)
     if mode == "matrix":
         plan = gen + mat
+    elif mode == "half":
+        plan = gen + rng.sample(mat, 40)
     elif mode == "genuine":
         plan = gen + [f for f in mat if f[0] in ("fault:exp-past", "fault:hs-other-clients-secret", "fault:basic-cross-secret",
                                                   "fault:aud-wrong", "fault:smuggled-flag-client-id")]
     else:
         plan = rng.sample(gen, 8) + rng.sample(mat, 10)
     # random pairs of faults
-    for i in range({"matrix": 6, "genuine": 1, "sampled": 4}[mode]):
+    for i in range({"matrix": 6, "half": 3, "genuine": 1, "sampled": 4}[mode]):
         a, b = rng.sample(mat, 2)
         plan.append(("pair:%s+%s" % (a[0][6:], b[0][6:]), merge(a[1], b[1])))
     # replays: a genuine JWT credential again after k intervening requests
     queue = list(plan)
     jw = [(n, r) for n, r in queue if n.startswith("genuine:") and ("assertion" in r or "request" in r)]
-    ks = [0, 1, 5, 50] if cfg.get("long") else ([0, 1, 5] if mode == "matrix" else [rng.choice([0, 1, 5])])
+    ks = [0, 1, 5, 50] if cfg.get("long") else ([0, 1, 5] if mode in ("matrix", "half") else [rng.choice([0, 1, 5])])
     filler = [x for x in gen if x[0] in ("genuine:post", "genuine:basic", "genuine:none")]
     queue = [(n, r, None) for n, r in queue]
     for k, (n, r) in zip(ks, rng.sample(jw, len(jw))):
@@ -867,6 +889,8 @@ def run_history(ctx, world, cfg, mode, rng, clock, tag, cases):
         term, rec, unmod = run_request(ctx, world, cfg, rq, now, hist)
         rec["name"] = name
         usable = any(rq.get(k) is not None for k in ("hdr", "client_id", "access_token", "assertion", "request"))
+        if hist.get("own_oct"):
+            ctx.count("observation:accepted-hs-assertion-maced-with-provider-own-oct-key", hist.pop("own_oct"))
         ctx.case_seen({"ep": cfg["ep"], "methods": cfg["methods"], "name": name, "request": rq, "now": now - NOW0,
                        "auth": rec["auth"], "outcome": rec["outcome"], "clients": cfg["clients"], "variant": world.variant,
                        "issuer_target": cfg["issuer_target"]}, nontrivial=usable)
@@ -882,7 +906,9 @@ def run_history(ctx, world, cfg, mode, rng, clock, tag, cases):
 
 
 def run(ctx):
+    import logging
     import srv
+    logging.disable(logging.CRITICAL)      # the provider logs every refusal; keep the check's output readable
     rng = ctx.rng
     keys = load_keys(ctx)
     clock = srv.Clock(NOW0).install()
@@ -900,6 +926,7 @@ def run(ctx):
                          "without jti are replayable until exp, 15 s skew after exp, bearer tokens resolve without a liveness check")
     finally:
         clock.uninstall()
+        logging.disable(logging.NOTSET)
 
 
 def side_cases(ctx, world):
